@@ -29,7 +29,7 @@ RULE = (
 )
 ASSUMPTIONS = ["str.isalnum() is 'alphanumeric'", "the empty-string delimiter is outside the domain (DESIGN 7.3)"]
 
-HOSTS = ["http://x/", "http://x/a_", "http://x/a/", "http://y#", "http://x/b#", "z", "http://x/a_b/", "urn:x:", "http://x/a_b_", "", " http://x/", "\thttp://x/b#", " http://x/a_", "http://x/ ", "http://x/cafe\u0301/", "http://x/caf\u00e9/", "http://\u212b/"]
+HOSTS = ["https://x/", "https://x/a_", "http://x/", "http://x/a_", "http://x/a/", "http://y#", "http://x/b#", "z", "http://x/a_b/", "urn:x:", "http://x/a_b_", "", " http://x/", "\thttp://x/b#", " http://x/a_", "http://x/ ", "http://x/cafe\u0301/", "http://x/caf\u00e9/", "http://\u212b/"]
 TAILS = ["1", "2", "3", "a1", "é", "a_1", "a-1", "", "x/1", "1#2", "٣", "b", "A", "1_2", "²", "e\u0301", "\u212b", "\u2126x"]
 DELIMS = [None, None, ["/"], ["#", "/", "_"], ["_", "/"], ["a_", "/"], ["/", "#"], [":", "/"], ["_"], ["b#", "#", "_"], ["/ ", "/"], [" ", "#"]]
 
